@@ -25,7 +25,7 @@ Proof.
         { intros e0 l0 k0 E0. destruct (hmem (H d) known) eqn:Em; inversion E0; subst; cbn; [left; auto|right].
           repeat split; auto. intro Hc. apply hmem_In in Hc. congruence. }
         destruct (last_lookup p last) as [dl|]; [|apply (Hby e l k); exact Ea].
-        destruct (fp_eqb f (d_fp dl)); [inversion Ea; subst; left; auto | apply (Hby e l k); exact Ea]. }
+        destruct (fp_eqb f (d_fp dl) && (fsize d =? l_size (d_line dl))); [inversion Ea; subst; left; auto | apply (Hby e l k); exact Ea]. }
       destruct Hk as [[Hu ->]|(Hu & -> & Hnew & Hsz)].
       * destruct (IH _ _ _ _ Er Hnd) as [A B]. cbn [map]. unfold uniques in *. cbn [filter]. rewrite Hu. split; [exact A|].
         intros l0 [<-|Hl0] Hu0; [congruence|auto].
